@@ -66,8 +66,13 @@ def wsOf (s : String) : Option KV.Whitespace :=
 def boolOf (s : String) : Option Bool :=
   if s == "1" then some true else if s == "0" then some false else none
 
+/-- Spec predicate of C24 (key-value clauses) on the implementation's observations: for a flat
+    object whose keys and values are non-empty strings (`C24.flatStr`; key order is given by the wire
+    form) the parsed value must be the object itself.  Failures are classified by
+    `KV.objectClass`, the classifier whose complement is the hypothesis of `kv_roundtrip_partial`. -/
 def kvOracle (kd fd : List Char) (o : List (List Char × List Char)) (st pv : String) : String :=
-  if st == "ok" && pv == showValue (objToValue (KV.expected o)) then "holds"
+  if o.any (fun kv => kv.1.isEmpty || kv.2.isEmpty) then "holds"   -- outside the property's domain
+  else if st == "ok" && pv == showValue (objToValue (KV.expected o)) then "holds"
   else match KV.objectClass kd fd o with
     | some c => "fails kv:" ++ c.name
     | none => "fails kv:-"
